@@ -57,6 +57,7 @@ func (p *Pool) Get() interface{} {
 	delete(p.in, x)
 	PoolReuses++
 	p.mu.Unlock()
+	Yield() // the caller now owns x; whoever put it may still be running
 	return x
 }
 
@@ -77,6 +78,7 @@ func (p *Pool) Put(x interface{}) {
 	p.in[x] = struct{}{}
 	p.items = append(p.items, x)
 	p.mu.Unlock()
+	Yield() // x is published: another thread may take it before the caller's next step
 }
 
 // Items returns a copy of the pooled objects, oldest first (harness use).
